@@ -333,6 +333,14 @@ def work_seq(job):
                 continue
             _st, is_lfe, direct, diffuse = a
             same = np.array_equal(direct, b[2], equal_nan=True) and np.array_equal(diffuse, b[3], equal_nan=True)
+            if not same:
+                # BLAS picks its summation order from the alignment of temporary buffers, so two renders of one block
+                # can differ in the last bit even on two fresh instances; only a difference beyond that is state
+                same = (np.allclose(direct, b[2], rtol=1e-12, atol=1e-15, equal_nan=True)
+                        and np.allclose(diffuse, b[3], rtol=1e-12, atol=1e-15, equal_nan=True))
+                count("sequence block equal only up to 1e-12 relative (last-bit BLAS noise)")
+            else:
+                count("sequence block bit-identical to the fresh-instance render")
             count("sequence block position %d" % i)
             count("sequence block zones:%s" % ("recurring/non-empty" if case["zones"] else "empty"))
             res["cases"].append((repr(("seq", layout, i, sorted((k, repr(v)) for k, v in case.items()))), True, None))
